@@ -723,6 +723,15 @@ fn wval_of_val(v: &Val) -> wgpos::ValueRecord {
     r.y_advance_device = d(&v.d[3]).into();
     r
 }
+/// a write-fonts ValueRecord with an EXPLICIT value format (bits 0..3 values, bits 4..7 device offsets): fields of the
+/// format without a device are written as null offsets
+fn wval_of_val_fmt(v: &Val, fmt: Option<u16>) -> wgpos::ValueRecord {
+    let r = wval_of_val(v);
+    match fmt {
+        Some(bits) => r.with_explicit_value_format(wgpos::ValueFormat::from_bits_truncate(bits)),
+        None => r,
+    }
+}
 fn ab_of_anc(a: &Anc) -> AnchorBuilder {
     let mut b = AnchorBuilder::new(a.x, a.y);
     if let Some(d) = wdevice(&a.xd) {
@@ -745,7 +754,11 @@ enum Spec {
     /// rules through PairPosBuilder
     Pair { pairs: Vec<(u16, u16, Val, Val)>, classes: Vec<(Vec<u16>, Vec<u16>, Val, Val)> },
     /// a PairPosFormat1 table given directly (variation-index records cannot go through the builder without a var store)
-    DirectPP1 { sets: BTreeMap<u16, Vec<(u16, Val, Val)>>, vf: (Val, Val) },
+    DirectPP1 { sets: BTreeMap<u16, Vec<(u16, Val, Val)>>, vf: (Val, Val), fmt: Option<(u16, u16)> },
+    /// a PairPosFormat2 table given directly with explicit value formats (bits 0..3 values, 4..7 device offsets):
+    /// cls1[i] = covered glyphs of class1 i (cls1[0]: covered, not in the class definition), cls2[j] = glyphs of class2 j
+    /// (cls2[0] is empty: every other glyph), cells[i][j] = the two value records
+    DirectPP2 { cls1: Vec<Vec<u16>>, cls2: Vec<Vec<u16>>, cells: Vec<Vec<VV>>, fmt: (u16, u16) },
     /// rules through MarkToBaseBuilder
     M2B { marks: Vec<(u16, usize, Anc)>, bases: Vec<(u16, usize, Anc)> },
     /// rules through MarkToMarkBuilder (insert_mark1 / insert_mark2)
@@ -883,14 +896,27 @@ fn build_lookup(ls: &LookupSpec, vs: &mut VariationStoreBuilder) -> wgpos::Posit
             let lb = LookupBuilder::new_with_lookups(flags, ls.mfs, vec![b]);
             wgpos::PositionLookup::Pair(lb.build(vs))
         }
-        Spec::DirectPP1 { sets, vf } => {
+        Spec::DirectPP1 { sets, vf, fmt } => {
             let cov: wlayout::CoverageTable = sets.keys().map(|g| gid(*g)).collect();
             let _ = vf;
+            let (f1, f2) = (fmt.map(|f| f.0), fmt.map(|f| f.1));
             let ps: Vec<wgpos::PairSet> = sets
                 .values()
-                .map(|recs| wgpos::PairSet::new(recs.iter().map(|(g2, v1, v2)| wgpos::PairValueRecord::new(gid(*g2), wval_of_val(v1), wval_of_val(v2))).collect()))
+                .map(|recs| wgpos::PairSet::new(recs.iter().map(|(g2, v1, v2)| wgpos::PairValueRecord::new(gid(*g2), wval_of_val_fmt(v1, f1), wval_of_val_fmt(v2, f2))).collect()))
                 .collect();
             let mut l = wlayout::Lookup::new(flags, vec![wgpos::PairPos::format_1(cov, ps)]);
+            l.mark_filtering_set = ls.mfs;
+            wgpos::PositionLookup::Pair(l)
+        }
+        Spec::DirectPP2 { cls1, cls2, cells, fmt } => {
+            let cov: wlayout::CoverageTable = cls1.iter().flatten().map(|g| gid(*g)).collect();
+            let cd1: wlayout::ClassDef = cls1.iter().enumerate().skip(1).flat_map(|(i, gs)| gs.iter().map(move |g| (gid(*g), i as u16))).collect();
+            let cd2: wlayout::ClassDef = cls2.iter().enumerate().skip(1).flat_map(|(j, gs)| gs.iter().map(move |g| (gid(*g), j as u16))).collect();
+            let recs: Vec<wgpos::Class1Record> = cells
+                .iter()
+                .map(|row| wgpos::Class1Record::new(row.iter().map(|(v1, v2)| wgpos::Class2Record::new(wval_of_val_fmt(v1, Some(fmt.0)), wval_of_val_fmt(v2, Some(fmt.1)))).collect()))
+                .collect();
+            let mut l = wlayout::Lookup::new(flags, vec![wgpos::PairPos::format_2(cov, cd1, cd2, recs)]);
             l.mark_filtering_set = ls.mfs;
             wgpos::PositionLookup::Pair(l)
         }
@@ -1306,6 +1332,9 @@ fn emit_split_cases(pre: &[Pre], lk: &Lk, st: &mut Stats, cw: &mut Vec<String>, 
                 piece_counts.push(pieces.len());
                 if pieces.len() > 1 {
                     st.count("split_pp1_subtables");
+                    if key.starts_with("devmix-") {
+                        st.count(&format!("devmix_split_pp1_{}_pieces", pieces.len().min(4)));
+                    }
                     st.count(&format!("split_pp1_cov_format{}", cov.0));
                     if cov.1.len() <= 900 && fps.len() <= 900 {
                         cw.push(format!(
@@ -1343,6 +1372,9 @@ fn emit_split_cases(pre: &[Pre], lk: &Lk, st: &mut Stats, cw: &mut Vec<String>, 
                 piece_counts.push(pieces.len());
                 if pieces.len() > 1 {
                     st.count("split_pp2_subtables");
+                    if key.starts_with("devmix-") {
+                        st.count(&format!("devmix_split_pp2_{}_pieces", pieces.len().min(4)));
+                    }
                     if cov.1.len() <= 900 && cd1.1.len() <= 900 {
                         cw.push(format!(
                             "CSplitPP2 {} {} {} {} {}",
@@ -1675,7 +1707,117 @@ fn gen_direct_pp1_k(rng: &mut Rng, target_bytes: usize, m1: u8, m2: u8) -> Spec 
         let recs: Vec<(u16, Val, Val)> = (0..n2).map(|j| (10 + j as u16, mk(m1, i, j, 0), mk(m2, i, j, 1))).collect();
         sets.insert(g1, recs);
     }
-    Spec::DirectPP1 { sets, vf: (Val::default(), Val::default()) }
+    Spec::DirectPP1 { sets, vf: (Val::default(), Val::default()), fmt: None }
+}
+
+/// all 2-, 3- and 4-subsets of the four device fields [x_placement, y_placement, x_advance, y_advance]
+const DEV_SUBSETS: [u8; 11] = [0b0011, 0b0101, 0b1001, 0b0110, 0b1010, 0b1100, 0b0111, 0b1011, 0b1101, 0b1110, 0b1111];
+/// the `k`-th subset of the bits of `mask` (k taken modulo the number of subsets)
+fn subset_of(mask: u8, k: usize) -> u8 {
+    let bits: Vec<u8> = (0..4).filter(|b| mask & (1 << b) != 0).collect();
+    let k = k % (1usize << bits.len());
+    bits.iter().enumerate().filter(|(n, _)| k & (1 << n) != 0).fold(0u8, |m, (_, b)| m | (1 << b))
+}
+/// a value record with the values of `vm` and a device on the fields of `present` (a subset of the format's device
+/// fields, chosen per record by the caller); `which` = 0 / 1 for value record 1 / 2.  The (up to) eight device tables of
+/// one cell are pairwise distinct, so a device offset landing in another field's slot is visible.
+/// mode 0: VariationIndex tables, 1: Device tables, 2: both kinds mixed
+fn mk_devmix_val(vm: u8, present: u8, seed: usize, which: usize, mode: usize, pool: &[Dev]) -> Val {
+    let mut v = Val::default();
+    for f in 0..4usize {
+        if vm & (1 << f) != 0 {
+            v.v[f] = Some((((seed * 13 + f * 257 + which * 1021) % 4001) as i32 - 2000) as i16);
+        }
+        if present & (1 << f) != 0 {
+            let slot = f + 4 * which;
+            let varidx = match mode { 0 => true, 1 => false, _ => (slot + seed) % 2 == 0 };
+            v.d[f] = if varidx { Dev::VarIdx((slot * 8 + seed % 5) as u16, (seed % 211) as u16) } else { pool[(seed * 8 + slot) % pool.len()].clone() };
+        }
+    }
+    v
+}
+/// per-cell null / non-null patterns: every subset of dm1 and (independently) every subset of dm2 occurs
+fn devmix_cell(n: usize, vm1: u8, dm1: u8, vm2: u8, dm2: u8, mode: usize, pool: &[Dev]) -> VV {
+    let p1 = subset_of(dm1, n.wrapping_mul(7) + n / 16);
+    let p2 = subset_of(dm2, n / 3 + n.wrapping_mul(5));
+    (mk_devmix_val(vm1, p1, n, 0, mode, pool), mk_devmix_val(vm2, p2, n * 3 + 1, 1, mode, pool))
+}
+/// glyph classes of 1-2 glyphs, class ids NOT monotone in glyph order
+fn devmix_classes(rng: &mut Rng, n: usize, base_lo: u16, base_span: u64) -> Vec<Vec<u16>> {
+    let base = base_lo + rng.below(base_span) as u16;
+    let stride = 1 + rng.below(2) as u16;
+    let mut order: Vec<usize> = (0..n).collect();
+    if rng.chance(2, 3) {
+        rng.shuffle(&mut order);
+    }
+    let mut v = vec![vec![]; n];
+    let mut cur = base;
+    for c in order {
+        let len = 1 + rng.below(2) as u16;
+        v[c] = (0..len).map(|k| cur + k * stride).collect();
+        cur += len * stride + rng.below(2) as u16;
+    }
+    v
+}
+fn devmix_dims(rng: &mut Rng, target_bytes: usize, cell: usize) -> (usize, usize) {
+    let cells = (target_bytes / cell.max(2)).max(4);
+    let c1n = if target_bytes < 4000 { 2 + rng.below(5) as usize } else { 40 + rng.below(140) as usize };
+    let c2n = (cells / c1n).max(2).min(400);
+    (c1n, c2n)
+}
+/// PairPos format 2 given directly: value formats with SEVERAL device fields (dm1 / dm2 for value record 1 / 2), value
+/// fields independent of the device fields, per-record independent null / non-null device offsets
+fn gen_direct_pp2_devmix(rng: &mut Rng, target_bytes: usize, dm1: u8, dm2: u8, mode: usize, pool: &[Dev]) -> Spec {
+    let vm1 = rng.below(16) as u8;
+    let vm2 = rng.below(16) as u8;
+    let cell = 2 * (vm1.count_ones() + dm1.count_ones() + vm2.count_ones() + dm2.count_ones()) as usize;
+    let (c1n, c2n) = devmix_dims(rng, target_bytes, cell);
+    let cls1 = devmix_classes(rng, c1n, 20, 40);
+    let mut cls2 = devmix_classes(rng, c2n, 5, 2000);
+    cls2[0] = vec![];
+    let cells: Vec<Vec<VV>> = (0..c1n).map(|i| (0..c2n).map(|j| devmix_cell(i * c2n + j, vm1, dm1, vm2, dm2, mode, pool)).collect()).collect();
+    Spec::DirectPP2 { cls1, cls2, cells, fmt: (vm1 as u16 | (dm1 as u16) << 4, vm2 as u16 | (dm2 as u16) << 4) }
+}
+/// the same through ClassPairPosBuilder (Device tables; a device needs its value, the subtable's format is the union
+/// over its rules so records lacking a device get a null offset)
+fn gen_pair_class_devmix(rng: &mut Rng, target_bytes: usize, dm1: u8, dm2: u8, pool: &[Dev]) -> Spec {
+    let vm1 = dm1 | rng.below(16) as u8;
+    let vm2 = dm2 | rng.below(16) as u8;
+    let cell = 2 * (vm1.count_ones() + dm1.count_ones() + vm2.count_ones() + dm2.count_ones()) as usize;
+    let (c1n, c2n) = devmix_dims(rng, target_bytes, cell);
+    let cls1 = devmix_classes(rng, c1n, 20, 40);
+    let cls2 = devmix_classes(rng, c2n, 5, 2000);
+    let sparse = rng.chance(1, 3);
+    let mut classes = vec![];
+    for (i, a) in cls1.iter().enumerate() {
+        for (j, b) in cls2.iter().enumerate() {
+            if !sparse || (i * 31 + j * 17) % 9 != 0 {
+                let (v1, v2) = devmix_cell(i * c2n + j, vm1, dm1, vm2, dm2, 1, pool);
+                classes.push((a.clone(), b.clone(), v1, v2));
+            }
+        }
+    }
+    Spec::Pair { pairs: vec![], classes }
+}
+/// PairPos format 1 given directly with explicit value formats and the same per-record device patterns
+fn gen_direct_pp1_devmix(rng: &mut Rng, target_bytes: usize, dm1: u8, dm2: u8, mode: usize, pool: &[Dev]) -> Spec {
+    let vm1 = rng.below(16) as u8;
+    let vm2 = rng.below(16) as u8;
+    let per = 2 + 2 * (vm1.count_ones() + dm1.count_ones() + vm2.count_ones() + dm2.count_ones()) as usize;
+    let n1 = if target_bytes < 4000 { 2 + rng.below(6) as usize } else { 30 + rng.below(60) as usize };
+    let n2 = (target_bytes / (n1 * per)).max(2);
+    let stride = 1 + rng.below(3) as u16;
+    let mut sets = BTreeMap::new();
+    for i in 0..n1 {
+        let recs: Vec<(u16, Val, Val)> = (0..n2)
+            .map(|j| {
+                let (v1, v2) = devmix_cell(i * n2 + j, vm1, dm1, vm2, dm2, mode, pool);
+                (10 + j as u16, v1, v2)
+            })
+            .collect();
+        sets.insert(3 + i as u16 * stride, recs);
+    }
+    Spec::DirectPP1 { sets, vf: (Val::default(), Val::default()), fmt: Some((vm1 as u16 | (dm1 as u16) << 4, vm2 as u16 | (dm2 as u16) << 4)) }
 }
 
 fn gen_m2m_spec(rng: &mut Rng, target_bytes: usize, pool: &[Dev]) -> Spec {
@@ -2045,6 +2187,46 @@ fn run_gpos_case(case: &GposCase, rng: &mut Rng, st: &mut Stats, cw: &mut CaseWr
                                 lst.oracle_failure(json!({"key": format!("{}:l{}:nopair", key, li), "what": "pair without a rule gets an adjustment", "g1": g1, "g2": g2}));
                             }
                         }
+                    }
+                }
+                Spec::DirectPP2 { cls1, cls2, cells, .. } => {
+                    // every (first glyph, second glyph) of every class pair, class 2 zero through glyphs outside every class,
+                    // compared field by field: which device / variation-index table sits in WHICH of the eight fields
+                    let in2: BTreeSet<u16> = cls2.iter().flatten().copied().collect();
+                    let in1: BTreeSet<u16> = cls1.iter().flatten().copied().collect();
+                    let zero2: Vec<u16> = [0u16, 60001, 65535].into_iter().filter(|g| !in2.contains(g)).collect();
+                    let mut bad = 0;
+                    for (i, gs) in cls1.iter().enumerate() {
+                        for g1 in gs {
+                            for (j, g2s) in cls2.iter().enumerate() {
+                                let probes: Vec<u16> = if j == 0 { zero2.iter().copied().chain(if in2.contains(g1) { None } else { Some(*g1) }).collect() } else { g2s.clone() };
+                                for g2 in probes {
+                                    lst.evaluations += 1;
+                                    let exp = &cells[i][j];
+                                    let got = walk_pair(&lk, *g1, g2);
+                                    if got.as_ref().map(eff2) != Some(eff2(exp)) {
+                                        bad += 1;
+                                        if bad <= 2 {
+                                            lst.oracle_failure(json!({"key": format!("{}:l{}:pair", key, li), "what": "compiled PairPos2 answers a glyph pair differently from the table given (values and the device / variation-index table of each field)",
+                                                "g1": g1, "g2": g2, "class1": i, "class2": j, "expected": format!("{:?}", exp), "got": format!("{:?}", got)}));
+                                        }
+                                    }
+                                }
+                            }
+                            // first glyphs outside the coverage get nothing
+                            for d in [1u16, 2, 30000] {
+                                let n = g1.wrapping_add(d);
+                                if !in1.contains(&n) {
+                                    lst.evaluations += 1;
+                                    if walk_pair(&lk, n, cls2.get(1).and_then(|c| c.first()).copied().unwrap_or(0)).is_some() {
+                                        lst.oracle_failure(json!({"key": format!("{}:l{}:nopair", key, li), "what": "first glyph outside the coverage gets an adjustment", "g1": n}));
+                                    }
+                                }
+                            }
+                        }
+                    }
+                    if bad > 2 {
+                        lst.add("pair_mismatches_suppressed", bad - 2);
                     }
                 }
                 Spec::M2B { .. } | Spec::M2M { .. } => {
@@ -2817,6 +2999,21 @@ fn main() {
     }
     for (key, specs) in big {
         cases.push(mk(key, specs, &mut rng));
+    }
+    // value formats with SEVERAL device / variation-index fields at once (every 2-, 3- and 4-subset of the four device
+    // fields, in value record 1 and in value record 2), per-record independent null / non-null offsets, pairwise distinct
+    // device tables: unsplit controls and oversized tables (2- and 3+-way splits) in PairPos format 2 (direct and through
+    // the class builder) and format 1
+    for (n, dm1) in DEV_SUBSETS.iter().enumerate() {
+        let dm2 = DEV_SUBSETS[(n * 3 + 4) % DEV_SUBSETS.len()];
+        let mode = n % 3;
+        let t = if n % 4 == 1 { k * 3 } else { k * 5 / 4 + (n % 3) * k / 4 };
+        cases.push(mk(format!("devmix-small-pp2-{}-{}", dm1, dm2), vec![gen_direct_pp2_devmix(&mut rng, 1500, *dm1, dm2, mode, &pool)], &mut rng));
+        cases.push(mk(format!("devmix-small-class-{}-{}", dm1, dm2), vec![gen_pair_class_devmix(&mut rng, 1500, *dm1, dm2, &pool)], &mut rng));
+        cases.push(mk(format!("devmix-small-pp1-{}-{}", dm1, dm2), vec![gen_direct_pp1_devmix(&mut rng, 1500, *dm1, dm2, mode, &pool)], &mut rng));
+        cases.push(mk(format!("devmix-big-pp2-{}-{}", dm1, dm2), vec![gen_direct_pp2_devmix(&mut rng, t, *dm1, dm2, mode, &pool)], &mut rng));
+        cases.push(mk(format!("devmix-big-class-{}-{}", dm1, dm2), vec![gen_pair_class_devmix(&mut rng, t, *dm1, dm2, &pool)], &mut rng));
+        cases.push(mk(format!("devmix-big-pp1-{}-{}", dm1, dm2), vec![gen_direct_pp1_devmix(&mut rng, k * 5 / 4, *dm1, dm2, (mode + 1) % 3, &pool)], &mut rng));
     }
     for c in &cases {
         run_gpos_case(c, &mut rng, &mut st, &mut cw, thorough);
